@@ -85,7 +85,10 @@ CLAIMED["C01"] = dict(
 CLAIMED["C04"] = dict(
     text="Proof (Lean 4) about the container model (header writers/parsers of RAW, AU, WAV; geometry table of all containers): re-open info and frame-count bounds; " + _WR +
          "The geometry (block length, pad allowance, rate quantiser per container) is written from the format definitions, not measured. Partial: header bytes of the other "
-         "containers are not modelled (covered by B).",
+         "containers are not modelled (covered by B). CAF and W64 (sample-granular encodings) have stand-alone byte-exact models (header writer, tailer, parser with the header cache's "
+         "short-read rules, write session): size fields / padding rules for every N, closed bytes independent of the stale frames value and of header updates, the W64 open-time "
+         "'fact' leak as a proved witness; the universal parse(image) theorem is not yet proved for them (concrete instances by kernel evaluation; the parser is tied to the "
+         "code on library-written files and ~7000 truncated/damaged variants per run).",
     technique="Lean 4 theorems over a hand-written container model + differential correspondence + predicate on implementation transcripts",
     design_ref="DESIGN.md §7 C04")
 CLAIMED["C07"] = dict(
